@@ -35,8 +35,6 @@ use std::path::Path;
 enum Act {
     /// one API call on the live handle
     Op(Op),
-    /// `Memvid::insert_sketch(frame, text, Small)` (public API; makes sketch ids that are not 0..n-1)
-    Sketch { frame: u64, text: String },
     /// lexical queries on the live handle as it is (meant for: after instant-index puts, before commit)
     Probe { seed: u64 },
     /// commit, battery on live / doctored copy / read-only / reopened
@@ -400,13 +398,6 @@ fn run_history(acts: &[Act], ctx: &mut Ctx) -> Outcome {
                 }
                 if !step.obs.dirty { pending_texts.clear(); instant_pending = false; }
             }
-            Act::Sketch { frame, text } => {
-                let r = guarded(AssertUnwindSafe(|| { world.mem().insert_sketch(*frame, text, memvid_core::types::SketchVariant::Small); }));
-                if let Err(p) = r { out.dead = Some(format!("act {i} insert_sketch: panic {p}")); return out; }
-                out.branches.push("insert-sketch".into());
-                out.trace.push(format!("sketch {frame}"));
-                if ctx.verbose { println!("--- act {i}: insert_sketch({frame}, {text:?})"); }
-            }
             Act::Probe { seed } => {
                 let mut rng = Rng::new(*seed);
                 let obs = world.observe();
@@ -532,6 +523,13 @@ fn check(world: &mut World, ctx: &mut Ctx, out: &mut Outcome, i: usize, rt: bool
     };
 
     // ------------------------------------------------------------------ property oracle
+    // the engines hold the same number of documents (a necessary condition of E4, checked before any query is compared)
+    for (name, oside) in [("reopen", &rw_side), ("read-only", &ro_side), ("doctor-rebuild", &doc_side)] {
+        if oside.lex_docs != live_side.lex_docs {
+            return Some(Fail::Oracle(format!("lexical-index-document-count-differs-after-{name}"),
+                format!("act {i}: the committing handle's engine holds {:?} documents, the engine after {name} {:?}", live_side.lex_docs, oside.lex_docs), false));
+        }
+    }
     for (k, q) in qs.iter().enumerate() {
         let nontrivial = !live[k].ids.is_empty();
         out.cases.push((format!("{}|{}|{}", q.kind(), serde_json::to_string(q).unwrap_or_default(), live[k].main), nontrivial));
@@ -747,9 +745,9 @@ fn gen_history(rng: &mut Rng, thorough: bool) -> Vec<Act> {
 fn put(kind: PayloadKind, len: usize, seed: u64, ts: i64) -> PutSpec { PutSpec::simple(PayloadSpec::new(kind, len, seed), ts) }
 fn put_emb(kind: PayloadKind, len: usize, seed: u64, ts: i64, dim: usize) -> PutSpec { let mut p = put(kind, len, seed, ts); p.emb = Some(EmbSpec { dim, seed: seed + 77 }); p }
 
-fn corpus() -> Vec<(String, Vec<Act>)> {
+fn corpus(thorough: bool) -> Vec<(String, Vec<Act>)> {
     let chk = |seed| Act::Check { rt: true, rl: true, rv: false, seed };
-    vec![
+    let c = vec![
         ("text-frames-with-embeddings".into(), vec![
             Act::Op(Op::Put(put_emb(PayloadKind::Ascii, 120, 1, 100, 3))), Act::Op(Op::Put(put_emb(PayloadKind::Ascii, 200, 2, 90, 3))),
             Act::Op(Op::Put(put_emb(PayloadKind::Utf8, 80, 3, 100, 3))), chk(11),
@@ -779,7 +777,9 @@ fn corpus() -> Vec<(String, Vec<Act>)> {
         ("doctor-rebuilds-vec".into(), vec![
             Act::Op(Op::Put(put_emb(PayloadKind::Ascii, 100, 11, 100, 2))), Act::Op(Op::Put(put_emb(PayloadKind::Ascii, 100, 12, 101, 2))),
             Act::Check { rt: false, rl: false, rv: true, seed: 15 }]),
-    ]
+    ];
+    let _ = thorough;
+    c
 }
 
 // ---------------------------------------------------------------------------------------
@@ -846,7 +846,7 @@ fn main() {
     let budget = args.extra.get("shrink").and_then(|s| s.parse().ok()).unwrap_or(if args.thorough { 90 } else { 40 });
     let only = args.extra.get("only").cloned();
     let verbose = args.extra.get("verbose").map(|s| s == "1").unwrap_or(false);
-    for (label, acts) in corpus() {
+    for (label, acts) in corpus(args.thorough) {
         if let Some(o) = &only { if *o != label { continue; } }
         if sum.oracle_violations.len() + sum.disagreements.len() >= max_fail { break; }
         let mut ctx = Ctx { drv: drv.as_mut(), thorough: args.thorough, verbose, no_rv };
